@@ -697,6 +697,31 @@ def monOp1 (m : Mon) (op : String) (args : List String) (impl : List String) (tr
       let v := popJudge m k cc ((wouts.filter (·.1 = k)).map (·.2))
       ({ m with queue := m.queue.filter (·.1 ≠ k), qlen := m.qlen.set k 0 }, v)
   match op, args with
+  | "tcpconn", src :: evs =>
+    -- one whole TCP connection: who the peer is (C14), what comes back and under whose secret (C14/C06), and that nothing behind
+    -- a request that must close the connection is answered (C05)
+    match parseIPv4 src, parseEvs evs with
+    | some src, some evs =>
+      let conf := m.cfg.clis.find? fun c => c.type = 2 && c.hosts.any fun (a, p) => if p ≥ 32 then a == src else Addr.prefixmatch src a p
+      let outs := (headToks out).filterMap fun t => if t.startsWith "out:" then ofHex (t.drop 4).toString else none
+      let stream := Stream.dataOf evs
+      let frames := (Stream.framesOut (stream.length + 1) stream).filterMap fun | .pkt b => some b | _ => none
+      match conf with
+      | none => (resync m out, if outs.isEmpty then "ok" else "bad C14:peer-matching-no-client-block-was-answered")
+      | some cc =>
+        let closes (f : Bytes) : Bool := !(wellFormedLoose f && authChecksPass H f (some cc.secret) none && !expectMacInvalid H f (some cc.secret) none)
+        let firstBad := frames.findIdx? closes
+        let answers (o : Bytes) : List Nat := (List.range frames.length).filter fun i =>
+          match frames[i]? with | some f => idOf f == idOf o && replyOk H cc.secret (authOf f) o | none => false
+        let v :=
+          if outs.any fun o => (answers o).isEmpty then
+            "bad C14:reply-on-the-connection-not-authenticated-under-the-secret-of-the-first-matching-client-block"
+          else match firstBad with
+            | some b => if outs.any fun o => (answers o).all (· > b) then "bad C05:request-behind-one-that-must-close-the-connection-was-answered" else "ok"
+            | none => "ok"
+        let m := { m with clientConf := m.clientConf ++ [String.fromUTF8! ⟨cc.name.toArray⟩], qlen := m.qlen ++ [0] }
+        (resync m out, v)
+    | _, _ => (m, "bad-op")
   | "wrpre", _ => (m, "ok")
   | "wrstart", [k] =>
     match k.toNat? with
@@ -719,7 +744,7 @@ def monOp1 (m : Mon) (op : String) (args : List String) (impl : List String) (tr
     let (m, v') := monOp0 m op args impl trToks
     (m, if v ≠ "ok" then v else v')
 
-def refOps : List String := ["cfg", "client", "rq", "reply", "writer", "tick", "reset", "srvstate", "pop", "rmclient", "udplisten", "udpsend", "idle", "wrstart", "wrrun"]
+def refOps : List String := ["cfg", "client", "rq", "reply", "writer", "tick", "reset", "srvstate", "pop", "rmclient", "udplisten", "udpsend", "idle", "wrstart", "wrrun", "tcpconn"]
 
 def monOp2 (m : Mon) (op : String) (args : List String) (impl : List String) (trToks : List String := []) : Mon × String :=
   let (m', v) := monOp1 m op args impl trToks
